@@ -68,6 +68,7 @@ class Session:
         self.violations: list[dict] = []
         self._viol_keys = collections.Counter()
         self.oracle_errors: list[str] = []
+        self.case_errors: list[str] = []
         self.sig_counts = collections.Counter()  # class signature -> evaluations
         self.case_hashes: set[int] = set()  # distinct non-trivial cases
         self.nontrivial = 0
